@@ -96,18 +96,31 @@ def token_scan(rep):
                     rep.ok("C12.a", rel)
 
 
+def strip_guard(a):
+    """operator new[]'s overflow guard and the checked multiplication it is built from: select(overflow, -1, x) -> x,
+    extractvalue(umul.with.overflow(p, q), 0) -> p * q (at the root of the term only: arithmetic around it stays)"""
+    if a[0] == 'sel' and a[2] == ('ci', (1 << 64) - 1, 64):
+        a = a[3]
+    if a[0] == 'extractvalue' and a[1][0] in ('fn', 'call') and (a[1][1] or "").startswith("llvm.umul.with.overflow") and a[2] == 0:
+        a = ('op', 'mul', 'i64', a[1][3], a[1][4])
+    return a
+
+
 def count_of(a, stride):
-    cnt = None
-    for x in c05.subterms(a):
-        if x[0] in ('call', 'fn') and x[1] and x[1].startswith("llvm.umul.with.overflow") and x[4] == ('ci', stride, 64):
-            cnt = x[3]
-        elif x[0] == 'op' and x[1] == 'mul' and x[4] == ('ci', stride, 64) and cnt is None:
-            cnt = x[3]
-        elif x[0] == 'op' and x[1] == 'shl' and x[4][0] == 'ci' and (1 << x[4][1]) == stride and cnt is None:
-            cnt = x[3]
+    """the element count c of a byte count that IS c * stride (the whole term, not a part of it), else None"""
+    a = strip_guard(a)
     if stride == 1:
         return a
-    return cnt
+    if a[0] == 'op' and a[1] == 'mul':
+        if a[4] == ('ci', stride, 64):
+            return a[3]
+        if a[3] == ('ci', stride, 64):
+            return a[4]
+    if a[0] == 'op' and a[1] == 'shl' and a[4][0] == 'ci' and (1 << a[4][1]) == stride:
+        return a[3]
+    if a[0] == 'ci' and a[1] % stride == 0:
+        return ('ci', a[1] // stride, 64)
+    return None
 
 
 def target_is_fresh(s, st, new):
